@@ -9,3 +9,7 @@ Local Open Scope string_scope.
 Example C13_no_direct_file_manipulation :
   (concat (map mutating_ok mutating_entries) ++ concat (map readonly_ok readonly_entries))%list = [].
 Proof. vm_compute. reflexivity. Qed.
+
+(** appendEvents: one write(2) per append, so no reader or crash can observe half a line of it. *)
+Example C13_append_is_one_write : append_prim_ok = [].
+Proof. vm_compute. reflexivity. Qed.
